@@ -12,6 +12,8 @@ Flow-insensitive taint over one function's structured AST:
     std::clamp, or a definition that is positive by form (pow(2, k));  `assert` is compiled out and does not count.
 A tainted variable reaching a sink without lower (upper) evidence is reported, at its root definition.
 """
+import re
+
 from . import ir, structq
 from .conc import strip_targs
 
@@ -297,6 +299,9 @@ class FnTaint:
                         idx, kind = n["args"][1], "subscript"
                     elif n.get("k") == "Call" and n.get("callee", "").startswith("std::advance") and len(n["args"]) == 2:
                         idx, kind = n["args"][1], "iterator advance"
+                    elif n.get("k") in ("Call", "OpCall") and "__normal_iterator" in (n.get("callee") or "") and re.search(r"operator(\+=|-=|\+|-)", n.get("callee") or "") and n.get("args"):
+                        # `v.begin() + k`, `it += k`: the same thing as a subscript / std::advance
+                        idx, kind = n["args"][-1], "iterator offset"
                     elif n.get("k") == "Bin" and n.get("op") == "<<" and n["a"].get("k") == "Int":
                         idx, kind = n["b"], "shift amount"
                     if idx is None:
